@@ -155,7 +155,9 @@ func tPlacements() []tPlacement {
 			return cmdLine(LO("aggregate", LS("c1"), "pipeline", LA(t), "cursor", LO(), "$db", LS("db1")))
 		}},
 		{"insert.documents", true, func(t *LNode) *LNode { return cmdLine(LO("insert", LS("c1"), "documents", LA(t), "$db", LS("db1"))) }},
-		{"find.sort", true, func(t *LNode) *LNode { return cmdLine(LO("find", LS("c1"), "filter", LO(), "sort", t, "$db", LS("db1"))) }},
+		{"find.sort", true, func(t *LNode) *LNode {
+			return cmdLine(LO("find", LS("c1"), "filter", LO(), "sort", t, "$db", LS("db1")))
+		}},
 		{"originatingCommand.pipeline", true, func(t *LNode) *LNode {
 			return tEnvelope("COMMAND", "Slow query", LO("ns", LS("db1.c1"), "command", LO("getMore", LN("5"), "collection", LS("c1")), "originatingCommand", LO("aggregate", LS("c1"), "pipeline", LA(t))))
 		}},
